@@ -41,7 +41,8 @@ type HistoryCfg struct {
 	CheckEveryStep bool `json:"check_every_step"`
 }
 
-var histTags = []string{"NAME", "BIRT", "DEAT", "DATE", "PLAC", "NOTE", "SEX", "OCCU", "_UID", "BURI", "BAPM", "RESI", "TITL"}
+var histTags = []string{"NAME", "BIRT", "DEAT", "DATE", "PLAC", "NOTE", "SEX", "OCCU", "_UID", "BURI", "BAPM", "RESI", "TITL",
+	"_FID", "_FSFTID", "Note", "Name", "note"}
 var histValues = []string{"", "Ann /Lee/", "3 Sep 1943", "Sydney", "M", "F", "x", "EE13561DDB204985BFFDEEBF82A5226C"}
 
 func genHistoryCase(prop, tier string, r *rand.Rand) *Case {
@@ -70,7 +71,7 @@ func genHistoryCase(prop, tier string, r *rand.Rand) *Case {
 		"doc.addfamily", "doc.addfamilyhw", "doc.delete", "doc.setnodes", "fam.sethusband", "fam.setwife", "fam.sethusband.nil",
 		"fam.setwife.nil", "fam.sethusbandptr", "fam.setwifeptr", "fam.addchild", "ind.addname", "ind.addbirth", "ind.adddeath", "ind.setsex"}
 	reads := []string{"read.nodeswithtag", "read.families", "read.individual", "read.family", "read.pointer", "read.all"}
-	ros := []string{"ro.warnings", "ro.string", "ro.compare", "ro.surrounding", "ro.comparenodes", "ro.deepcopy", "ro.filter",
+	ros := []string{"ro.warnings", "ro.string", "ro.compare", "ro.surrounding", "ro.comparenodes", "ro.deepcopy", "ro.shallowcopy", "ro.filter",
 		"ro.publish", "ro.query", "ro.diffpage"}
 	// swarm: operation mix varies per case
 	wEdit, wRead, wRO := 1+r.IntN(4), r.IntN(3), r.IntN(3)
@@ -260,6 +261,7 @@ func viewsInOrder(doc *gedcom.Document, order int) (v map[string]string, err err
 			func() string {
 				return fmt.Sprintf("%s.UniqueIdentifiers=%v\n", id, ind.UniqueIdentifiers().Strings())
 			},
+			func() string { return fmt.Sprintf("%s.IsLiving=%v\n", id, ind.IsLiving()) },
 		}
 		out := make([]string, len(readers))
 		if order == 0 {
@@ -643,6 +645,22 @@ func applyReadOnly(t *testing.T, cr *CaseResult, prop string, ss *session, other
 				_ = d.String()
 			}
 		})
+	case "ro.shallowcopy":
+		nodes, _ := allNodes(doc)
+		nd := nthNode(nodes, op.A)
+		if op.B%2 == 0 {
+			if i := nthIndividual(doc, op.A); i != nil {
+				nd = i
+			}
+		} else if op.B%3 == 0 {
+			if f := nthFamily(doc, op.A); f != nil {
+				nd = f
+			}
+		}
+		if nd == nil {
+			return false, ""
+		}
+		guard(func() { nd.ShallowCopy() })
 	case "ro.deepcopy":
 		nodes, _ := allNodes(doc)
 		nd := nthNode(nodes, op.A)
